@@ -147,10 +147,28 @@ type placementResult struct {
 	fixedDark [][2]int
 }
 
+// Two-level cache: the mapping matrices of the 30 standard symbols are
+// computed once and then read without locking; any other size goes through a
+// mutex-protected map.
 var (
+	stdPlacementOnce sync.Once
+	stdPlacement     map[[2]int]placementResult // read-only after the Once
+
 	placementMu    sync.Mutex
 	placementCache = map[[2]int]placementResult{}
 )
+
+func buildStdPlacement() {
+	stdPlacement = map[[2]int]placementResult{}
+	for _, s := range table7 {
+		key := [2]int{s.rows - 2*s.vreg, s.cols - 2*s.hreg}
+		if _, ok := stdPlacement[key]; !ok {
+			var res placementResult
+			res.cw, res.fixedDark = runPlacement(key[0], key[1])
+			stdPlacement[key] = res
+		}
+	}
+}
 
 // PlacementMap runs Annex F for a mapping matrix of the given size.  cw[i][k]
 // is the (row, col) in the mapping matrix of the bit with value 128>>k of
@@ -161,10 +179,14 @@ var (
 //
 // Results are cached and shared: callers must not modify them.
 func PlacementMap(mappingRows, mappingCols int) (cw [][8][2]int, fixedDark [][2]int) {
+	key := [2]int{mappingRows, mappingCols}
+	stdPlacementOnce.Do(buildStdPlacement)
+	if res, ok := stdPlacement[key]; ok {
+		return res.cw, res.fixedDark
+	}
 	if mappingRows < 6 || mappingCols < 6 || mappingRows%2 != 0 || mappingCols%2 != 0 {
 		panic("dm: PlacementMap: mapping matrix must be even and at least 6x6")
 	}
-	key := [2]int{mappingRows, mappingCols}
 	placementMu.Lock()
 	defer placementMu.Unlock()
 	res, ok := placementCache[key]
